@@ -23,7 +23,7 @@ World(n, x) ==
         bad == RandomElement({{}, {}, {RandomElement(Range(ps))}, {RandomElement(Range(ps)), RandomElement(Range(ps))}})
         \* valid but non-numeric (unrankable) metrics: nobody, one peer, a random subset, everybody
         nn  == RandomElement({{}, {}, {RandomElement(Range(ps))}, RandomElement(SUBSET Range(ps)), Range(ps)})
-    IN [peers |-> ps, followers |-> fo, norepin |-> (n <= 4 /\ RandomElement(1..6) = 1), strat |-> "asc",
+    IN [getfail |-> <<>>, peers |-> ps, followers |-> fo, norepin |-> (n <= 4 /\ RandomElement(1..6) = 1), strat |-> "asc",
         ms |-> [p \in Range(ps) |-> IF p \in bad THEN "bad" ELSE IF p \in nn THEN "nonnum" ELSE Vals[Pos(ps, p)]],
         blocks |-> << <<"d1", <<"s1", "s2">> >> >>]
 
@@ -51,20 +51,38 @@ Pinset(x) ==
     LET base == {DataPin(x, c, NoCid) : c \in RandomElement({{"c1"}, {"c1", "c2"}, {"c1", "c2", "c3"}})}
         upd  == {DataPin(x, c, RandomElement({"c1", "c9"})) : c \in RandomElement({{}, {"c4"}, {"c4", "c5"}})}
         grp  == RandomElement({{}, {}, Group(x, "f1"), Group(x, "past")})
-    IN {e \in base \cup upd \cup grp : e.rmin < 0 \/ e.type \in {"meta", "cdag"} \/ e.allocs # <<>>}
+    \* only well-formed entries (the random draws above are independent of each other)
+    IN {e \in base \cup upd \cup grp :
+           \/ e.type \in {"meta", "cdag"}
+           \/ e.rmin = 0 - 1 /\ e.rmax = 0 - 1 /\ e.allocs = <<>>
+           \/ 1 <= e.rmin /\ e.rmin <= e.rmax /\ e.rmin <= Len(e.allocs) /\ Len(e.allocs) <= e.rmax}
 
 Episode(x) ==
-    LET k == RandomElement({"fail", "fail", "fail", "remove", "remove", "sync", "noise"}) IN
-    [kind |-> k, failed |-> IF k = "sync" THEN "" ELSE RandomElement(Members(x)),
-     at |-> IF k = "remove" THEN RandomElement(Members(x)) ELSE ""]
+    LET k0 == RandomElement({"fail", "fail", "fail", "remove", "remove", "remove2", "sync", "noise"})
+        k  == IF k0 = "remove2" /\ Len(x.peers) < 3 THEN "remove" ELSE k0
+        t  == RandomElement(Members(x)) IN
+    IF k = "remove2"
+    THEN LET u == RandomElement(Members(x) \ {t}) IN
+         [kind |-> k, failed |-> t, failed2 |-> u, at |-> RandomElement(Members(x) \ {t, u})]
+    ELSE [kind |-> k, failed |-> IF k = "sync" THEN "" ELSE t, failed2 |-> "",
+          at |-> IF k = "remove" THEN RandomElement(Members(x)) ELSE ""]
 
 Init == stage = 0 /\ w = [n |-> 0] /\ ep = [kind |-> "none"] /\ ps0 = {}
+\* Every random choice is bound once by a quantifier over a singleton set (a LET definition would be re-evaluated,
+\* hence re-drawn, at each of its uses).
 Next == /\ stage = 0 /\ stage' = 1
         /\ \E n \in {IF RandomElement(1..15) = 1 THEN 1 ELSE RandomElement(2..NPEERS)} :
-             LET x == World(n, n) e == Episode(x) IN
+           \E x \in {World(n, n)} :
+           \E e \in {Episode(x)} :
+           \* now and then State.Get of one CID fails with a read error while the episode is handled
+           \E gf \in {IF e.kind \in {"fail", "remove"} /\ RandomElement(1..4) = 1
+                       THEN <<RandomElement({"c1", "c2", "c4"})>> ELSE <<>>} :
+           \* two removals in a row run on the rig with the real pubsubmon monitor: plain configuration
+           \E y \in {IF e.kind = "remove2" THEN [x EXCEPT !.followers = <<>>, !.norepin = FALSE]
+                      ELSE [x EXCEPT !.getfail = gf]} :
              /\ ep' = e
              \* the monitors of the survivors hold no valid metric of a failed peer
-             /\ w' = IF e.kind = "fail" THEN [x EXCEPT !.ms = [p \in DOMAIN x.ms |-> IF p = e.failed THEN "bad" ELSE x.ms[p]]] ELSE x
+             /\ w' = IF e.kind = "fail" THEN [y EXCEPT !.ms = [p \in DOMAIN y.ms |-> IF p = e.failed THEN "bad" ELSE y.ms[p]]] ELSE y
         /\ ps0' = Pinset(w')
 Spec == Init /\ [][Next]_<<w, ep, ps0, stage>>
 =============================================================================
